@@ -81,6 +81,21 @@ def at(seq, i):
     return seq[i]
 
 
+def cap(f, name):
+    """the value of the variable `name` captured by the closure f"""
+    return f.__closure__[f.__code__.co_freevars.index(name)].cell_contents
+
+
+def feq(x, y):
+    """equality of two float values as VALUES (the prover's reals have no NaN; natively two NaNs are the same value)"""
+    return (x != x and y != y) or x == y
+
+
+def ieee(fmt, b):
+    import struct
+    return struct.unpack(fmt, bytes(b))[0]
+
+
 def lcat(a, b):
     return list(a) + list(b)
 
